@@ -47,6 +47,22 @@ Theorem C16_cleandoc_alignment_refuted_by_one :
   nth_error (cleandoc_lines w_doc) 1 = clean_line_of_value_line w_doc 2.
 Proof. exact alignment_refuted_by_one. Qed.
 
+(* In general (any docstring with text): the docstring line is never too small, and it overshoots by exactly
+   top_dropped - top_kept = (leading whitespace-only lines of the literal) - (lines cleandoc removes at the top);
+   under the guard the two are equal. *)
+Theorem C16_cleandoc_overshoot :
+  forall (s : text) (n0 : Z) (i : nat),
+    has_content s = true -> (i < length (cleandoc_lines s))%nat ->
+    exists j : nat,
+      (top_kept s <= top_dropped s)%nat /\
+      linenum_of_docstring false n0 s + Z.of_nat i = phys_line n0 j + Z.of_nat (top_dropped s - top_kept s) /\
+      nth_error (cleandoc_lines s) i = clean_line_of_value_line s j.
+Proof. exact cleandoc_overshoot. Qed.
+
+Theorem C16_fit_no_overshoot :
+  forall s, has_content s = true -> leading_ws_fit s = true -> top_kept s = top_dropped s.
+Proof. exact fit_no_overshoot. Qed.
+
 (* non-vacuity of the guard: "\n  \n    \n    text\n      more\n" (two leading whitespace-only lines, the
    second exactly as long as the margin) satisfies it, and its cleaned line 1 is value line 4 *)
 Example C16_alignment_hypotheses_satisfiable :
@@ -105,6 +121,27 @@ Theorem C16_offset_bases :
     (forall section, uses_docstring_base section = false -> ln <> 0 ->
        report_line section ds ln off m = Num (ln + off)).
 Proof. exact offset_bases. Qed.
+
+(* Who stores what in a ParseError.  epytext passes Token.startline (0-based): the report names
+   docstring_lineno + startline.  The reST reader passes docutils' 1-based line unchanged, so the conversions do
+   NOT cancel there: a reST parse error whose block docutils places on (1-based) line L of the cleaned
+   docstring -- physical line docstring_lineno + L - 1 -- is reported on the line after it.
+   (known_findings/C16.json: C16-rst-parse-error-line-one-based; witness: a one-line docstring
+   "Bad **unclosed text." opening on line 2 is reported on line 3, outside the docstring.) *)
+Theorem C16_offset_bases_epytext_partial :
+  forall ds ln m d startline, ds <> 0 -> 0 <= startline ->
+    report_line sec_docstring ds ln (perr_offset (epytext_perr d startline)) m = Num (ds + startline).
+Proof. exact epytext_parse_error_line. Qed.
+
+Theorem C16_offset_bases_rst_refuted :
+  ~ (forall ds ln m d L, ds <> 0 -> 1 <= L ->
+       report_line sec_docstring ds ln (perr_offset (rst_reader_perr d (Some L))) m = Num (ds + (L - 1))).
+Proof. exact rst_parse_error_line_refuted. Qed.
+
+Theorem C16_rst_parse_error_one_too_large :
+  forall ds ln m d L, ds <> 0 -> 1 <= L ->
+    report_line sec_docstring ds ln (perr_offset (rst_reader_perr d (Some L))) m = Num (ds + (L - 1) + 1).
+Proof. exact rst_parse_error_one_too_large. Qed.
 
 (* ... and that is the line in the message that reaches stdout at any verbosity -1..100 *)
 Theorem C16_reports_print_that_line :
